@@ -193,7 +193,7 @@ func menu() []slot {
 	}
 }
 
-type state [nSlots]int
+type state [nSlots]uint8
 
 func (st state) spec(m []slot, s wk.IDScheme) wk.Spec {
 	var out wk.Spec
@@ -300,6 +300,11 @@ func compactExpect(spec wk.Spec, ids []b6.FeatureID) wk.Dump {
 	ref := wk.NewRef(spec)
 	d := wk.Dump{}
 	for _, id := range ids {
+		if !ref.Has(id) {
+			// the compact format stores referrers with the referenced feature, so a
+			// dangling member has none; the statement speaks of features of the world
+			continue
+		}
 		s := id.String()
 		direct := ref.DirectReferrers(id)
 		rels := ofTypes(direct, b6.FeatureTypeRelation)
@@ -350,7 +355,7 @@ func observe(w b6.World, ids []b6.FeatureID) wk.Dump {
 }
 
 // classify one differing section: got vs want are space separated sorted ID lists.
-func classify(kind, section, got, want string, former []wk.Dump) string {
+func classify(kind, section, got, want string, former []wk.Dump, droppedBase bool) string {
 	replaced := map[string]bool{} // referrers (under this query) in an earlier state of the history
 	for _, f := range former {
 		for _, x := range strings.Fields(f[section]) {
@@ -392,6 +397,11 @@ func classify(kind, section, got, want string, former []wk.Dump) string {
 		}
 	}
 	switch {
+	case extra && droppedBase:
+		// one input class whatever the query: the overlay replaced a feature of the
+		// base by a version that dropped a reference, and the answer still follows
+		// the base's version of it
+		return kind + ":extra-referrer-after-replacing-base-feature-by-version-that-dropped-a-reference"
 	case stale:
 		return kind + ":" + sec + ":reports-former-referrer-that-no-longer-refers"
 	case extra:
@@ -404,7 +414,7 @@ func classify(kind, section, got, want string, former []wk.Dump) string {
 	return kind + ":" + sec + ":differs"
 }
 
-func compare(r *kit.Result, kind string, got, want wk.Dump, former []wk.Dump, what func() string) bool {
+func compare(r *kit.Result, kind string, got, want wk.Dump, former []wk.Dump, droppedBase bool, what func() string) bool {
 	var secs []string
 	for k := range want {
 		secs = append(secs, k)
@@ -418,7 +428,7 @@ func compare(r *kit.Result, kind string, got, want wk.Dump, former []wk.Dump, wh
 			g = "MISSING-SECTION"
 		}
 		if g != want[k] {
-			c := classify(kind, k, g, want[k], former)
+			c := classify(kind, k, g, want[k], former, droppedBase)
 			if _, seen := byClass[c]; !seen {
 				order = append(order, c)
 			}
@@ -557,7 +567,7 @@ func runHistories(r *kit.Result, c *histCfg, start state) {
 		// fresh world, replay
 		var w ingest.MutableWorld
 		var former []wk.Dump // expectations of the earlier states of this history
-		dropped := false
+		dropped, droppedBase := false, false
 		cur := start
 		describe := func() string {
 			var hs []string
@@ -585,6 +595,9 @@ func runHistories(r *kit.Result, c *histCfg, start state) {
 			if dropsReference(old, nf) {
 				dropped = true
 			}
+			if c.kind == kindOverlay && dropsReference(startSpec.Find(nf.ID), nf) {
+				droppedBase = true
+			}
 			former = append(former, expect(cur))
 			if err := w.AddFeature(nf.Feature()); err != nil {
 				// the model holds the edit valid; acceptance is not this property's subject
@@ -592,13 +605,13 @@ func runHistories(r *kit.Result, c *histCfg, start state) {
 				r.AddOutcome(c.kind + ":skipped:edit-rejected")
 				return
 			}
-			cur[o.slot] = o.v
+			cur[o.slot] = uint8(o.v)
 		}
 		want := expect(n.st)
 		got := observe(w, ids)
 		r.Evals++
 		r.Transitions += int64(len(n.hist))
-		good := compare(r, c.kind, got, want, former, describe)
+		good := compare(r, c.kind, got, want, former, droppedBase, describe)
 		mr := 0
 		for _, v := range want {
 			if v != "" {
@@ -633,7 +646,7 @@ func runHistories(r *kit.Result, c *histCfg, start state) {
 		}
 		for _, o := range c.ops {
 			nx := n.st
-			nx[o.slot] = o.v
+			nx[o.slot] = uint8(o.v)
 			if !isValid(nx) {
 				continue
 			}
@@ -687,7 +700,7 @@ func runStatic(r *kit.Result, m []slot, sch wk.IDScheme, kind string, st state) 
 			}
 		}
 	}
-	good := compare(r, kind, got, want, nil, describe)
+	good := compare(r, kind, got, want, nil, false, describe)
 	res := "ok"
 	if !good {
 		res = "diff"
@@ -704,12 +717,19 @@ func runStatic(r *kit.Result, m []slot, sch wk.IDScheme, kind string, st state) 
 // ---- space ------------------------------------------------------------------------
 
 type caseDef struct {
-	what  string // static-basic | static-compact | hist
-	sch   int
-	st    state
-	hc    *histCfg
-	first *op // hist: only histories starting with this op (nil = all, incl. the empty history)
+	what uint8 // cStaticBasic | cStaticCompact | cHist
+	sch  uint8
+	st   state
+	hc   *histCfg
 }
+
+const (
+	cStaticBasic = iota
+	cStaticCompact
+	cHist
+)
+
+var whatNames = []string{"static-basic", "static-compact", "hist"}
 
 func radices(m []slot, small bool) []int {
 	r := make([]int, len(m))
@@ -739,36 +759,36 @@ func states(m []slot, rad []int, _ wk.IDScheme) (acyclic, cyc []state) {
 }
 
 func states1(m []slot, rad []int, sch wk.IDScheme) (acyclic, cyc []state) {
-	n := kit.Product(rad)
-	physOK := map[[4]int]bool{}
-	rcCyc := map[[3]int]bool{}
-	for i := int64(0); i < n; i++ {
-		d := kit.Digits(i, rad)
-		var st state
-		copy(st[:], d)
-		pk := [4]int{st[sP0], st[sW0], st[sW1], st[sA0]}
-		ok, seen := physOK[pk]
-		if !seen {
-			p := st
-			p[sR0], p[sR1], p[sC0] = 0, 0, 0
-			ok = allValid(p.spec(m, sch))
-			physOK[pk] = ok
+	// validity depends on the physical slots only, cyclicity on relations and collection only
+	var phys []state
+	for a := 0; a < rad[sP0]; a++ {
+		for b := 0; b < rad[sW0]; b++ {
+			for c := 0; c < rad[sW1]; c++ {
+				for d := 0; d < rad[sA0]; d++ {
+					var st state
+					st[sP0], st[sW0], st[sW1], st[sA0] = uint8(a), uint8(b), uint8(c), uint8(d)
+					if allValid(st.spec(m, sch)) {
+						phys = append(phys, st)
+					}
+				}
+			}
 		}
-		if !ok {
-			continue
-		}
-		rk := [3]int{st[sR0], st[sR1], st[sC0]}
-		cy, seen := rcCyc[rk]
-		if !seen {
-			var p state
-			p[sR0], p[sR1], p[sC0] = st[sR0], st[sR1], st[sC0]
-			cy = cyclic(p.spec(m, sch))
-			rcCyc[rk] = cy
-		}
-		if cy {
-			cyc = append(cyc, st)
-		} else {
-			acyclic = append(acyclic, st)
+	}
+	for a := 0; a < rad[sR0]; a++ {
+		for b := 0; b < rad[sR1]; b++ {
+			for c := 0; c < rad[sC0]; c++ {
+				var rc state
+				rc[sR0], rc[sR1], rc[sC0] = uint8(a), uint8(b), uint8(c)
+				cy := cyclic(rc.spec(m, sch))
+				for _, st := range phys {
+					st[sR0], st[sR1], st[sC0] = uint8(a), uint8(b), uint8(c)
+					if cy {
+						cyc = append(cyc, st)
+					} else {
+						acyclic = append(acyclic, st)
+					}
+				}
+			}
 		}
 	}
 	return
@@ -790,6 +810,16 @@ func bySize(m []slot, l []state) []state {
 }
 
 // restricted physical part for the cyclic family: nothing, or closed W0 + A0 on it
+func rcCount(st state) int {
+	n := 0
+	for _, i := range []int{sR0, sR1, sC0} {
+		if st[i] != 0 {
+			n++
+		}
+	}
+	return n
+}
+
 func cyclicPhys(st state) bool {
 	return st[sP0] == 0 && st[sW1] == 0 && ((st[sW0] == 0 && st[sA0] == 0) || (st[sW0] == 1 && st[sA0] == 1))
 }
@@ -803,7 +833,7 @@ func build(tier string) (kit.Space, string) {
 	small := radices(m, true)
 	allSlots := []int{sP0, sW0, sW1, sA0, sR0, sR1, sC0}
 	rcSlots := []int{sP0, sR0, sR1, sC0}
-	cases := make([]caseDef, 0, 1<<16)
+	cases := make([]caseDef, 0, 1<<14)
 	var bound []string
 
 	// 1. static worlds over every valid state of the full menu (acyclic), and the
@@ -821,7 +851,7 @@ func build(tier string) (kit.Space, string) {
 		ac, cy := states(m, rad, sch)
 		nb, nc := 0, 0
 		for _, st := range ac {
-			cases = append(cases, caseDef{what: "static-basic", sch: si, st: st})
+			cases = append(cases, caseDef{what: cStaticBasic, sch: uint8(si), st: st})
 			nb++
 		}
 		cm := rad
@@ -831,21 +861,25 @@ func build(tier string) (kit.Space, string) {
 		acC, cyC := states(m, cm, sch)
 		for _, st := range acC {
 			if !hasCollection(m, st) {
-				cases = append(cases, caseDef{what: "static-compact", sch: si, st: st})
+				cases = append(cases, caseDef{what: cStaticCompact, sch: uint8(si), st: st})
 				nc++
 			}
 		}
 		ncy := 0
-		for _, st := range cy {
-			if cyclicPhys(st) {
-				cases = append(cases, caseDef{what: "static-basic", sch: si, st: st})
+		cyB := cy
+		if !thorough || si > 0 {
+			cyB = cyC // quick: cyclic states of the small menu only (each costs a worker while findReferences recurses forever)
+		}
+		for _, st := range cyB {
+			if cyclicPhys(st) && (st[sW0] == 0 || (thorough && si == 0)) {
+				cases = append(cases, caseDef{what: cStaticBasic, sch: uint8(si), st: st})
 				ncy++
 			}
 		}
 		ncc := 0
 		for _, st := range cyC {
 			if cyclicPhys(st) && !hasCollection(m, st) {
-				cases = append(cases, caseDef{what: "static-compact", sch: si, st: st})
+				cases = append(cases, caseDef{what: cStaticCompact, sch: uint8(si), st: st})
 				ncc++
 			}
 		}
@@ -863,14 +897,17 @@ func build(tier string) (kit.Space, string) {
 		ac, cy := states(m, rad, sch)
 		var starts []state
 		for _, st := range bySize(m, append(append([]state{}, ac...), cy...)) {
-			if cyclicPhys(st) {
+			// quick: the empty graph, one relation/collection, or a 2-cycle, no path/area;
+			// thorough: at most two of R0, R1, C0 present, with and without path + area
+			n := rcCount(st)
+			if cyclicPhys(st) && ((thorough && n <= 2) || (st[sW0] == 0 && (n <= 1 || (n == 2 && cyclic(st.spec(m, sch)))))) {
 				starts = append(starts, st)
 			}
 		}
 		for _, kind := range []string{kindMutable, kindOverlay} {
 			hc := &histCfg{m: m, sch: sch, kind: kind, depth: depth, ops: ops(m, rad, rcSlots), cyclic: true}
 			for _, st := range starts {
-				cases = append(cases, caseDef{what: "hist", st: st, hc: hc})
+				cases = append(cases, caseDef{what: cHist, st: st, hc: hc})
 			}
 		}
 		bound = append(bound, fmt.Sprintf("cyclic family: %d start states x {mutable, overlay} x every sequence of <= %d of %d AddFeature operations that visits a cyclic state", len(starts), depth, len(ops(m, rad, rcSlots))))
@@ -885,7 +922,7 @@ func build(tier string) (kit.Space, string) {
 			for _, kind := range []string{kindMutable, kindOverlay} {
 				hc := &histCfg{m: m, sch: sch, kind: kind, depth: 3, ops: ops(m, small, rcSlots), cyclic: true}
 				for _, st := range startsS {
-					cases = append(cases, caseDef{what: "hist", st: st, hc: hc})
+					cases = append(cases, caseDef{what: cHist, st: st, hc: hc})
 				}
 			}
 			bound = append(bound, fmt.Sprintf("cyclic family, small menu: %d start states x 2 kinds x sequences of <= 3 of %d operations", len(startsS), len(ops(m, small, rcSlots))))
@@ -902,11 +939,12 @@ func build(tier string) (kit.Space, string) {
 		for _, kind := range []string{kindMutable, kindOverlay} {
 			hc := &histCfg{m: m, sch: sch, kind: kind, depth: d, ops: ops(m, small, allSlots), cyclic: false}
 			for _, st := range acS {
-				cases = append(cases, caseDef{what: "hist", st: st, hc: hc})
+				cases = append(cases, caseDef{what: cHist, st: st, hc: hc})
 			}
 		}
 		bound = append(bound, fmt.Sprintf("acyclic family, small menu: %d start states x 2 kinds x every all-acyclic sequence of <= %d of %d operations", len(acS), d, len(ops(m, small, allSlots))))
 		acF, _ := states(m, full, sch)
+		nF := 0
 		d = 1
 		if thorough {
 			d = 2
@@ -914,10 +952,13 @@ func build(tier string) (kit.Space, string) {
 		for _, kind := range []string{kindMutable, kindOverlay} {
 			hc := &histCfg{m: m, sch: sch, kind: kind, depth: d, ops: ops(m, full, allSlots), cyclic: false}
 			for _, st := range acF {
-				cases = append(cases, caseDef{what: "hist", st: st, hc: hc})
+				if st[sP0] == 0 { // start with the plain point; AddFeature(P0=tagged) is among the operations
+					cases = append(cases, caseDef{what: cHist, st: st, hc: hc})
+					nF++
+				}
 			}
 		}
-		bound = append(bound, fmt.Sprintf("acyclic family, full menu: %d start states x 2 kinds x every all-acyclic sequence of <= %d of %d operations", len(acF), d, len(ops(m, full, allSlots))))
+		bound = append(bound, fmt.Sprintf("acyclic family, full menu: %d start states x 2 kinds x every all-acyclic sequence of <= %d of %d operations", nF/2, d, len(ops(m, full, allSlots))))
 	}
 
 	lastCases = cases
@@ -925,25 +966,25 @@ func build(tier string) (kit.Space, string) {
 		var r kit.Result
 		c := cases[i]
 		switch c.what {
-		case "static-basic":
+		case cStaticBasic:
 			runStatic(&r, m, wk.Schemes[c.sch], "basic", c.st)
-		case "static-compact":
+		case cStaticCompact:
 			runStatic(&r, m, wk.Schemes[c.sch], "compact", c.st)
-		case "hist":
+		case cHist:
 			runHistories(&r, c.hc, c.st)
 			r.Nontrivial = r.Distinct > 0
 		}
 		if i%401 == 0 {
-			r.Sample = map[string]interface{}{"case": c.what, "state": c.st.String(m), "spec": c.st.spec(m, wk.Schemes[c.sch]).String()}
+			r.Sample = map[string]interface{}{"case": whatNames[c.what], "state": c.st.String(m), "spec": c.st.spec(m, wk.Schemes[c.sch]).String()}
 		}
 		return r
 	}}, strings.Join(bound, "; ")
 }
 
 func main() {
-	// A runaway recursion then overflows after 8 MB instead of 1 GB of stack
+	// A runaway recursion then overflows after 2 MB instead of 1 GB of stack
 	// (the deepest legitimate chain in the menu is 5 references).
-	debug.SetMaxStack(8 << 20)
+	debug.SetMaxStack(2 << 20)
 	kit.Main(&kit.Check{
 		ID: "C15", Level: "model_checking",
 		Rule: "state = one variant per slot of the reference-graph menu (P0 plain/tagged; paths W0, W1 through or past P0, closed or open; area A0 on W0, W1 or both; relations R0, R1 with point/path/area/relation/collection members incl. self-membership, mutual membership, duplicate members; collection C0 keyed by point/relation/area/itself), only states valid as given. " +
@@ -952,9 +993,10 @@ func main() {
 		Assumptions: []string{
 			"compact world checked against the chains its own queries define (relations by direct membership, paths of a point, areas of a point through its paths; no collections) — narrower than the transitive closure of the in-memory worlds; the sections where the two definitions differ are counted, not alarmed",
 			"edits are valid as a whole state (worldkit.ValidSubset keeps everything); rejected edits are C13's subject",
-			"stack limit of the worker lowered to 8 MB so unbounded recursion is observed quickly",
+			"stack limit of the worker lowered to 2 MB so unbounded recursion is observed quickly",
 		},
-		CaseTimeout:      20e9,
+		CaseTimeout:      60e9, // cases take well under a second of CPU; the shared machine is heavily loaded
+		WorkerEnv:        []string{"GOMAXPROCS=2", "GOGC=400"},
 		QuickDeadline:    240e9,
 		ThoroughDeadline: 25 * 60e9,
 		Chunk:            4,
